@@ -2,6 +2,8 @@
 
 package dkv
 
+import "reduction.dev/reduction/dkv/bg"
+
 // VerifSealedMaxSeqs returns, oldest first, the largest sequence number held by each sealed
 // memtable: the writes after which the memtable rotated (C08 restore traces).
 func (db *DB) VerifSealedMaxSeqs() []uint64 {
@@ -14,4 +16,15 @@ func (db *DB) VerifSealedMaxSeqs() []uint64 {
 		out = append(out, m)
 	}
 	return out
+}
+
+// VerifCheckpointListLocked reports whether the checkpoint list's mutex is held right now.
+func (db *DB) VerifCheckpointListLocked() bool { return db.checkpoints.VerifLocked() }
+
+// VerifResetQueues replaces the process-wide flush and compaction queues. A harness that abandons an
+// instance whose background tasks must not run any further (they stay parked at their hook points and
+// keep the old queues' locks) calls it before it starts the next instance.
+func VerifResetQueues() {
+	flushMemTablesQueue = bg.NewQueue(5)
+	compactionQueue = bg.NewQueue(5)
 }
